@@ -92,6 +92,47 @@ class Env:
     def state(self):
         return self.h.attr(self.at, "_state").name
 
+    # -- accessors shared with NativeEnv (the native reading of the same obligations) ------------
+    def hb_starts(self):
+        return len(self.w.events("heartbeat.start"))
+
+    def hb_stops(self):
+        return len(self.w.events("heartbeat.stop"))
+
+    def init_flag(self):
+        return self.h.attr(self.at, "_initialised_event").flag
+
+    def set_init_flag(self, v):
+        self.h.attr(self.at, "_initialised_event").flag = v
+
+    def gs_flag(self):
+        return self.h.attr(self.at, "_group_status_received_event").flag
+
+    def tasks_created(self):
+        return [e[1].coro.func.name for e in self.w.events("create_task") if isinstance(e[1].coro, Coroutine)]
+
+    def install_poll_task(self, cancelled):
+        t = aio.create_task(self.h.it, Opaque("old-poll-coro"))
+        t.cancelled = cancelled
+        self.h.it.path.events.clear()
+        self.h.setattr(self.at, "_group_status_request_task", t)
+        return t
+
+    def task_cancelled_and_awaited(self, t):
+        ev = self.h.it.path.events
+        return And(any(e[0] == "task.cancel" and e[1] is t for e in ev), any(e[0] == "task.await" and e[1] is t for e in ev))
+
+    def socket_calls(self, name):
+        return len([e for e in self.h.it.path.events if e[0] == "call" and e[1] == name])
+
+    def on_suspension(self, fn):
+        """fn() is called at every point where the coroutine under contract suspends."""
+        self.w.site_checks.append(lambda e: fn() if e[0] == "suspend" else None)
+
+    def put_model(self):
+        self.h.attr(self.at, "_air_conditioners")[0] = Opaque("ac0")
+        self.h.attr(self.at, "_zones")[3] = Opaque("zone3")
+
     def stub_process(self):
         """The _process_* methods by contract (they have their own obligation sets)."""
         G, g = self.G, self.g
@@ -125,6 +166,158 @@ class Env:
 
 def g_of(env):
     return env.g
+
+
+class NativeEnv:
+    """The native reading of Env: the real AirTouch object of the real package on CPython, with recording stand-ins
+    for what Env gives by contract (socket, heartbeat manager, loop.create_task, the _process_* methods)."""
+
+    def __init__(self, h, g, state=None):
+        import asyncio
+        G = GEN[g]
+        self.h, self.g, self.G = h, g, G
+        self.w, self.sock = api_world(h)
+        env = self
+        self.state_at_send, self.process_calls, self.at_process = [], [], []
+        self._hb = {"start": 0, "stop": 0}
+        self._tasks, self._sock_calls = [], []
+
+        class Task:
+            def __init__(self, name, cancelled=False):
+                self.name, self.cancelled_, self.awaited = name, cancelled, 0
+
+            def cancel(self):
+                self.cancelled_ = True
+                return True
+
+            def done(self):
+                return self.cancelled_
+
+            def add_done_callback(self, cb):
+                pass
+
+            def __await__(self):
+                self.awaited += 1
+                for f in env._susp:
+                    f()
+                if self.cancelled_:
+                    raise asyncio.CancelledError()
+                return None
+                yield  # pragma: no cover
+
+        class Loop:
+            def create_task(self, coro, **k):
+                name = getattr(coro, "__qualname__", repr(coro)).split(".")[-1]
+                coro.close()
+                t = Task(name)
+                env._tasks.append(t)
+                return t
+
+            def time(self):
+                return 0.0
+        self.Task = Task
+
+        self._susp = []
+
+        def suspended():
+            for f in env._susp:
+                f()
+
+        class HbStub:
+            async def start(self):
+                suspended()
+                env._hb["start"] += 1
+
+            async def stop(self):
+                suspended()
+                env._hb["stop"] += 1
+
+        orig_send = self.sock.send
+
+        async def send(message=None, retry_policy=None):
+            env.state_at_send.append(env.at._state)
+            await orig_send(message=message, retry_policy=retry_policy)
+        self.sock.send = send
+        for nm in ("open_socket", "close", "reset_connection"):
+            async def call(_nm=nm):
+                for f in env._susp:
+                    f()
+                env._sock_calls.append(_nm)
+            setattr(self.sock, nm, call)
+        for nm in ("subscribe_on_connection_changed", "subscribe_on_message_received", "unsubscribe_on_connection_changed",
+                   "unsubcribe_on_message_received"):
+            setattr(self.sock, nm, lambda cb, _nm=nm: env._sock_calls.append(_nm))
+        r = h.call(G["api"] + ":" + G["cls"], Loop(), "AT-ID", "SERIAL", "Name", self.sock)
+        self.ctor = r
+        self.at = r.value
+        cfg = self.at._heartbeat_manager._config
+        self.matcher, self.hb_message = cfg.response_match, cfg.message
+        self.at._heartbeat_manager = HbStub()
+        subs_obj, self.subs = subscriber_set(h, self.w, "airtouch_subscribers")
+        self.at._subscribers = subs_obj
+        self.States = G["api"] + ":_AirTouchState"
+        if state is not None:
+            self.at._state = h.member(self.States, state)
+
+    def state(self):
+        return self.at._state.name
+
+    def stub_process(self):
+        G = self.G
+        env = self
+        for name, is_async in ((G["p_names"], False), ("_process_ac_ability_message", False), ("_process_ac_status_message", True),
+                               ("_process_ac_timer_status_message", True), (G["p_zstatus"], True), ("_process_ac_error_info_message", True),
+                               ("_process_console_version_update", True)):
+            def rec(*a, _name=name):
+                env.process_calls.append((_name, list(a)))
+                env.at_process.append((env.at._initialised_event.is_set(), env.state(), env._hb["start"]))
+            if is_async:
+                async def stub(*a, _rec=rec):
+                    _rec(*a)
+            else:
+                def stub(*a, _rec=rec):
+                    _rec(*a)
+            setattr(self.at, name, stub)
+
+    def hb_starts(self):
+        return self._hb["start"]
+
+    def hb_stops(self):
+        return self._hb["stop"]
+
+    def init_flag(self):
+        return self.at._initialised_event.is_set()
+
+    def set_init_flag(self, v):
+        (self.at._initialised_event.set if v else self.at._initialised_event.clear)()
+
+    def gs_flag(self):
+        return self.at._group_status_received_event.is_set()
+
+    def tasks_created(self):
+        return [t.name for t in self._tasks]
+
+    def install_poll_task(self, cancelled):
+        t = self.Task("old-poll", cancelled)
+        self.at._group_status_request_task = t
+        return t
+
+    def task_cancelled_and_awaited(self, t):
+        return t.cancelled_ and t.awaited >= 1
+
+    def socket_calls(self, name):
+        return self._sock_calls.count(name)
+
+    def on_suspension(self, fn):
+        self._susp.append(fn)
+
+    def put_model(self):
+        self.at._air_conditioners[0] = object()
+        self.at._zones[3] = object()
+
+
+def make_env(h, g, state=None):
+    return Env(h, g, state) if h.symbolic else NativeEnv(h, g, state)
 
 
 def shapes(h, g):
@@ -210,11 +403,9 @@ def expected(g, state, shape, to_is_client):
 
 
 def _message_received(h, g):
-    if not h.symbolic:
-        return
     G = GEN[g]
     state = h.choice("state", all_states(g))
-    E = Env(h, g, state)
+    E = make_env(h, g, state)
     S = shapes(h, g)
     shape = h.choice("frame", sorted(S.keys()))
     to_client = h.choice("to_address_is_client", [True, False])
@@ -225,10 +416,7 @@ def _message_received(h, g):
     old_version = h.attr(E.at, "_console_version")
     if g == 4 and h.choice("poll_task_left_over_from_an_earlier_session", [False, True]):
         # after shutdown() the attribute may still refer to the cancelled task of the previous session
-        stale = aio.create_task(h.it, Opaque("old-poll-coro"))
-        stale.cancelled = True
-        h.it.path.events.clear()
-        h.setattr(E.at, "_group_status_request_task", stale)
+        E.install_poll_task(cancelled=True)
     r = h.method(E.at, "_message_received", hdr, S[shape])
     nxt, req, proc, done = expected(g, state, shape, to_client)
     h.oblige("_message_received never raises", r.ok)
@@ -253,30 +441,26 @@ def _message_received(h, g):
         h.oblige("the console version of the handshake answer is stored", h.attr(E.at, "_console_version") is h.attr(S[shape], "sub_message"))
     elif proc != "_process_console_version_update":
         h.oblige("the stored console version is untouched", h.attr(E.at, "_console_version") is old_version)
-    started = len(E.w.events("heartbeat.start"))
-    init_ev = h.attr(E.at, "_initialised_event")
-    tasks = [e[1].coro.func.name for e in E.w.events("create_task") if isinstance(e[1].coro, Coroutine)]
+    started = E.hb_starts()
+    tasks = E.tasks_created()
     if done:
-        h.oblige("completing the last step starts the heartbeat and marks the object initialised", And(started == 1, h.eq(init_ev.flag, True)))
+        h.oblige("completing the last step starts the heartbeat and marks the object initialised", And(started == 1, h.eq(E.init_flag(), True)))
         h.oblige("...only after the model update of that last frame: init() must not return (nor the heartbeat run) while "
                  "zones still show constructor defaults",
                  And(len(E.at_process) == (1 if proc else 0), *[And(h.eq(f, False), st != "CONNECTED", n == 0) for f, st, n in E.at_process]))
         h.oblige("AT4 also starts the group-status poll task (AT5 has none)", tasks == (["_group_status_request_loop"] if g == 4 else []))
     else:
-        h.oblige("nothing else starts the heartbeat, creates tasks or marks initialisation", And(started == 0, h.eq(init_ev.flag, False), tasks == []))
+        h.oblige("nothing else starts the heartbeat, creates tasks or marks initialisation", And(started == 0, h.eq(E.init_flag(), False), tasks == []))
     if g == 4:
-        gsev = h.attr(E.at, "_group_status_received_event")
         h.oblige("the group-status poll deadline is pushed back exactly by group status frames in the CONNECTED state",
-                 h.eq(gsev.flag, state == "CONNECTED" and shape == "zstatus"))
+                 h.eq(E.gs_flag(), state == "CONNECTED" and shape == "zstatus"))
     h.cover("transition explored")
 
 
 def _connection_changed(h, g):
-    if not h.symbolic:
-        return
     G = GEN[g]
     state = h.choice("state", all_states(g))
-    E = Env(h, g, state)
+    E = make_env(h, g, state)
     connected = h.choice("connected", [True, False])
     r = h.method(E.at, "_connection_changed", connected=connected)
     h.oblige("_connection_changed never raises", r.ok)
@@ -339,39 +523,29 @@ def _init(h, g):
 
 
 def _shutdown(h, g):
-    if not h.symbolic:
-        return
     state = h.choice("state", all_states(g))
-    E = Env(h, g, state)
-    it = h.it
-    init_ev = h.attr(E.at, "_initialised_event")
-    init_ev.flag = h.bool("was_initialised")
-    h.attr(E.at, "_air_conditioners")[0] = Opaque("ac0")
-    h.attr(E.at, "_zones")[3] = Opaque("zone3")
+    E = make_env(h, g, state)
+    E.set_init_flag(h.bool("was_initialised"))
+    E.put_model()
     task = None
     if g == 4 and h.choice("poll_task_running", [True, False]):
-        task = aio.create_task(it, Opaque("poll-coro"))
-        it.path.events.clear()
-        h.setattr(E.at, "_group_status_request_task", task)
+        task = E.install_poll_task(cancelled=False)
     first = {}
 
-    def at_first_suspension(e):
-        if e[0] == "suspend" and not first:
+    def at_first_suspension():
+        if not first:
             first["state"] = E.state()
-            first["flag"] = init_ev.flag
-    E.w.site_checks.append(at_first_suspension)
+            first["flag"] = E.init_flag()
+    E.on_suspension(at_first_suspension)
     r = h.method(E.at, "shutdown")
-    ev = it.path.events
     h.oblige("shutdown never raises", r.ok)
     h.oblige("the state machine is CLOSED and the initialised flag cleared before shutdown first suspends "
              "(a frame arriving while it waits must not complete the handshake or restart the heartbeat)",
              And(first.get("state") == "CLOSED", h.eq(first.get("flag"), False)) if first else False)
-    h.oblige("state CLOSED, not initialised", And(E.state() == "CLOSED", h.eq(init_ev.flag, False), h.eq(h.prop(E.at, "initialised").value, False)))
-    h.oblige("the heartbeat is stopped and the socket closed, exactly once each",
-             And(len([e for e in ev if e[0] == "heartbeat.stop"]) == 1, len([e for e in ev if e[0] == "call" and e[1] == "close"]) == 1))
+    h.oblige("state CLOSED, not initialised", And(E.state() == "CLOSED", h.eq(E.init_flag(), False), h.eq(h.prop(E.at, "initialised").value, False)))
+    h.oblige("the heartbeat is stopped and the socket closed, exactly once each", And(E.hb_stops() == 1, E.socket_calls("close") == 1))
     if task is not None:
-        h.oblige("the group-status poll task is cancelled and awaited",
-                 And(any(e[0] == "task.cancel" and e[1] is task for e in ev), any(e[0] == "task.await" and e[1] is task for e in ev)))
+        h.oblige("the group-status poll task is cancelled and awaited", E.task_cancelled_and_awaited(task))
     h.oblige("the model is dropped: no air-conditioners, no zones",
              And(h.length(h.attr(E.at, "_air_conditioners")) == 0, h.length(h.attr(E.at, "_zones")) == 0,
                  h.length(h.prop(E.at, "air_conditioners").value) == 0))
@@ -415,11 +589,9 @@ def _misc(h, g):
 
 
 def _console_version_update(h, g):
-    if not h.symbolic:
-        return
     G = GEN[g]
     C = G["comms"]
-    E = Env(h, g, "CONNECTED")
+    E = make_env(h, g, "CONNECTED")
     old = h.new(C + "x1FFF30_console_ver:ConsoleVersionMessage", update_available=h.bool("old_update"), versions=["1.0", "2.0"])
     new = h.new(C + "x1FFF30_console_ver:ConsoleVersionMessage", update_available=h.bool("new_update"),
                 versions=h.choice("new_versions", [["1.0", "2.0"], ["1.1", "2.0"], ["1.0"]]))
@@ -575,11 +747,9 @@ def _dispatch_any(h, g):
 def _build_model(h, g):
     """Names then abilities: exactly the zones / ACs the console described, each zone attached to the right AC.
     Installations are enumerated (bounded): 0..3 named zones out of {0, 1, 5}, one or two ACs."""
-    if not h.symbolic:
-        return
     G = GEN[g]
     C = G["comms"]
-    E = Env(h, g, G["names_state"])
+    E = make_env(h, g, G["names_state"])
     zone_ids = h.choice("zones", [[], [0], [0, 1], [0, 1, 5]])
     names = {z: f"Z{z}" for z in zone_ids}
     r = h.method(E.at, G["p_names"], names)
@@ -660,12 +830,10 @@ def _build_model_exhaustive(h, g):
     start/count 0..4), consistent or not.  Reference: the AC gets exactly the zones its ability names; a console
     that names a zone it never described makes the step fail with KeyError (init() then times out cleanly) and
     with nothing else."""
-    if not h.symbolic:
-        return
     import itertools
     G = GEN[g]
     C = G["comms"]
-    E = Env(h, g, G["names_state"])
+    E = make_env(h, g, G["names_state"])
     top = 4 if g == 5 else 3
     n = h.choice("zones", list(range(top + 1)))
     zone_ids = list(range(n))
@@ -716,6 +884,8 @@ def _build_model_exhaustive(h, g):
 
 
 def set_of(h, items):
+    if not h.symbolic:
+        return set(items)
     from pyvc.values import SetVal
     return SetVal(items)
 
